@@ -2,6 +2,7 @@ import Driver.DiffOps
 import Driver.ExecOps
 import Driver.ConfigOps
 import Driver.NamerOps
+import Driver.ShellOps
 /-! Line-protocol driver: one operation per input line, one canonical line out. -/
 namespace Driver
 
@@ -15,6 +16,7 @@ def step (line : String) : String :=
   | "dcwd" :: args => opDcWd args
   | "effective" :: args => opEffective args
   | "namer" :: args => opNamer args
+  | "shvars" :: args => opShVars args
   | _ => "bad-op"
 
 partial def loop (h : IO.FS.Stream) (out : IO.FS.Stream) : IO Unit := do
